@@ -30,6 +30,23 @@
 (*        where the slope is 0 and phi(h/2) < phi(0), but Armijo holds     *)
 (*        only for T >= 1.  T in {1/2, 2}: inside / outside the narrow     *)
 (*        window  phi(0) + c1 a phi'(0) < phi(a) < phi(0).                 *)
+(* hermite  NOT convex along the line: the slope first gets steeper.  The   *)
+(*        spec constructs the degree-6 Hermite interpolant (exact divided  *)
+(*        differences, expanded to monomial coefficients) with             *)
+(*          phi(0) = 0, phi'(0) = -1, phi(h) = -(1+S) h/2, phi'(h) = -S,   *)
+(*          phi(3h/2) = phi(h) - S h/4, phi'(3h/2) = +-G, phi(2h) = phi(h) *)
+(*        so that the first trial step h is "short" (slope -S, S > 1), the *)
+(*        doubled step does not decrease phi any more: the zoom phase      *)
+(*        starts with the LOWER bracket end h > 0 whose slope is steeper   *)
+(*        than phi'(0); its quadratic interpolation lands exactly on 3h/2, *)
+(*        where Armijo holds and phi is below phi(h).  G is placed on both *)
+(*        sides of c2 |phi'(0)| (the documented reference) and of          *)
+(*        c2 |phi'(h)| (the slope at the lower bracket end, a wrong        *)
+(*        reference): for c2 < G <= c2 S the step 3h/2 must NOT be         *)
+(*        accepted.                                                        *)
+(* nonconvex  phi(a) = -a - s a^2 + q a^3 + u a^4 on a grid of s, q, u and *)
+(*        first steps: negative curvature at 0 (the slope steepens),       *)
+(*        bounded below; no prescribed route, the returned step is checked.*)
 (* Constraints: every case also carries two feasible intervals [0, c] for  *)
 (* the Constraints option, with c = 3/2 Alpha1 (between the first trial    *)
 (* step and its double) and c = 3 Alpha1 (between the double and the       *)
@@ -111,8 +128,64 @@ WindowCase(h, T) ==
       starts |-> << [x |-> <<0>>, box |-> [lo |-> <<-1>>, hi |-> <<1>>], half |-> [has |-> FALSE, k |-> 1, t |-> RZero, side |-> 1]] >>]
 WindowCases == {WindowCase(h, T) : h \in {RInt(2), ROne, Rat(1, 2)}, T \in {Rat(1, 2), RInt(2)}}
 
+(* ---------------- Hermite interpolation with exact divided differences ---------------- *)
+(* nodes zs (each at most twice), vals[i] the value at zs[i], ders[i] the derivative at zs[i] *)
+RECURSIVE DD(_, _, _, _, _)
+DD(zs, vals, ders, i, j) ==
+  IF i = j THEN vals[i]
+  ELSE IF REq(zs[i], zs[j]) THEN ders[i]
+  ELSE RDiv(RSub(DD(zs, vals, ders, i + 1, j), DD(zs, vals, ders, i, j - 1)), RSub(zs[j], zs[i]))
+(* polynomials with constant term: p[j + 1] is the coefficient of a^j *)
+MulLin(p, t) == [j \in 1..(Len(p) + 1) |->
+                  RSub(IF j = 1 THEN RZero ELSE p[j - 1], IF j > Len(p) THEN RZero ELSE RMul(t, p[j]))]      \* p(a) (a - t)
+PAdd(p, q) == [j \in 1..(IF Len(p) > Len(q) THEN Len(p) ELSE Len(q)) |->
+                RAdd(IF j <= Len(p) THEN p[j] ELSE RZero, IF j <= Len(q) THEN q[j] ELSE RZero)]
+PScale(c, p) == [j \in 1..Len(p) |-> RMul(c, p[j])]
+RECURSIVE Basis(_, _)
+Basis(zs, k) == IF k = 1 THEN <<ROne>> ELSE MulLin(Basis(zs, k - 1), zs[k - 1])       \* prod_{i<k} (a - zs[i])
+RECURSIVE NewtonSum(_, _, _, _)
+NewtonSum(zs, vals, ders, k) ==
+  IF k = 0 THEN <<RZero>> ELSE PAdd(NewtonSum(zs, vals, ders, k - 1), PScale(DD(zs, vals, ders, 1, k), Basis(zs, k)))
+
+HermiteCase(h, S, G, sgn) ==
+  LET h32 == RMul(Rat(3, 2), h)   h2 == RMul(RInt(2), h)
+      y1 == RNeg(RMul(RDiv(RAdd(ROne, S), RInt(2)), h))
+      y3 == RSub(y1, RMul(RDiv(S, RInt(4)), h))
+      zs == <<RZero, RZero, h, h, h32, h32, h2>>
+      vals == <<RZero, RZero, y1, y1, y3, y3, y1>>
+      ders == <<RInt(-1), RInt(-1), RNeg(S), RNeg(S), RMul(RInt(sgn), G), RMul(RInt(sgn), G), RZero>>
+      full == NewtonSum(zs, vals, ders, 7)                       \* coefficients of a^0 .. a^6
+      coefs == [j \in 1..6 |-> full[j + 1]]
+      \* the zoom phase: parabola through (h, phi(h)) with slope phi'(h) and (2h, phi(2h))
+      B == RDiv(RSub(RSub(Phi(coefs, h2), Phi(coefs, h)), RMul(Slope(coefs, h), h)), RMul(h, h))
+      at == RSub(h, RDiv(Slope(coefs, h), RMul(RInt(2), B)))
+  IN [kind |-> "line1d", form |-> "hermite", deg |-> 6, coefs |-> coefs, alpha1 |-> h, at_trial |-> 1,
+      cbox |-> RMul(RInt(4), h), chalf |-> RMul(RInt(4), h),
+      classes |-> <<Class(coefs, h), IF Le(Phi(coefs, h), Phi(coefs, h2)) THEN "no_decrease" ELSE "decrease", Class(coefs, at)>>,
+      interpolated |-> at, const0 |-> full[1],
+      wolfe_at_trial |-> Armijo(coefs, at) /\ Strong(coefs, at),
+      wrong_ref_accepts |-> Armijo(coefs, at) /\ Lt(Phi(coefs, at), Phi(coefs, h))
+                            /\ Le(RAbsR(Slope(coefs, at)), RMul(C2, RAbsR(Slope(coefs, h)))),
+      n |-> 1, xstar |-> <<>>, invb2 |-> RZero, lip2 |-> RZero, sc |-> FALSE,
+      starts |-> << [x |-> <<0>>, box |-> [lo |-> <<-1>>, hi |-> <<1>>], half |-> [has |-> FALSE, k |-> 1, t |-> RZero, side |-> 1]] >>]
+Gs(S) == {RMul(C2, RSub(ROne, Delta)), RMul(C2, RAdd(ROne, Delta)),
+          RMul(RMul(C2, S), RSub(ROne, Delta)), RMul(RMul(C2, S), RAdd(ROne, Delta))}
+HermiteCases == {HermiteCase(h, S, G, sgn) : h \in {Rat(1, 2), ROne}, S \in {RInt(2), RInt(3)}, G \in Gs(RInt(2)) \cup Gs(RInt(3)), sgn \in {-1, 1}}
+
+NonConvexCase(sq, q, u, a1) ==
+  LET coefs == <<RInt(-1), RInt(0 - sq), RInt(q), u>> IN
+  [kind |-> "line1d", form |-> "nonconvex", deg |-> 4, coefs |-> coefs, alpha1 |-> a1, at_trial |-> 1,
+   cbox |-> RMul(Rat(3, 2), a1), chalf |-> RMul(RInt(3), a1),
+   classes |-> [i \in 1..3 |-> Class(coefs, RMul(RInt(IF i = 1 THEN 1 ELSE IF i = 2 THEN 2 ELSE 4), a1))],
+   n |-> 1, xstar |-> <<>>, invb2 |-> RZero, lip2 |-> RZero, sc |-> FALSE,
+   starts |-> << [x |-> <<0>>, box |-> [lo |-> <<-1>>, hi |-> <<1>>], half |-> [has |-> FALSE, k |-> 1, t |-> RZero, side |-> 1]] >>]
+NonConvexCases == {NonConvexCase(sq, q, u, a1) : sq \in {1, 2}, q \in {-1, 0, 1}, u \in {Rat(1, 2), ROne},
+                                                  a1 \in {Rat(1, 4), Rat(1, 2), ROne, RInt(2)}}
+
 Init == \/ case \in MonoCases
         \/ case \in WindowCases
+        \/ case \in HermiteCases
+        \/ case \in NonConvexCases
 Next == UNCHANGED case
 Spec == Init /\ [][Next]_case
 
@@ -136,5 +209,17 @@ Certificates ==
        /\ case.classes[3] = "below_phi0"                             \* phi(h/2) < phi(0)
        /\ (case.inside_window <=> case.classes[2] = "noarmijo")      \* Armijo fails exactly inside the window
        /\ (~case.inside_window => case.classes[2] = "wolfe")
+HermiteCertificate ==
+  case.form = "hermite" =>
+    /\ RIsZero(case.const0)                                          \* phi(0) = 0
+    /\ case.classes[1] = "short"                                     \* first step: Armijo, slope still (more) negative
+    /\ Lt(Slope(case.coefs, case.alpha1), RInt(-1))                  \* ... steeper than phi'(0): not convex along the line
+    /\ case.classes[2] = "no_decrease"                               \* the doubled step ends the bracketing: zoom(lo = h, hi = 2h)
+    /\ REq(case.interpolated, RMul(Rat(3, 2), case.alpha1))          \* its first interpolation lands on 3h/2
+    /\ Armijo(case.coefs, case.interpolated) /\ Lt(Phi(case.coefs, case.interpolated), Phi(case.coefs, case.alpha1))
+    /\ (case.wolfe_at_trial => case.wrong_ref_accepts)
+NonConvexCertificate ==
+  case.form = "nonconvex" => /\ case.coefs[2].n < 0 /\ case.coefs[4].n > 0
+                             /\ \E j \in 1..16 : Lt(Slope(case.coefs, Rat(j, 8)), RInt(-1))     \* the slope steepens
 Emit == PrintT(ToJson(case))
 =============================================================================
